@@ -1,10 +1,17 @@
 import BoltonsVerif.C01.Proofs
+import BoltonsVerif.C01.ConcreteProofs
 /-
 C01 — property theorems for the OrderedMultiDict model (statements, short derivations from
 `Proofs.lean`, non-vacuity examples).
 
   model   `OMD K V` = the dict of per-key value lists (`vals`) + the linked list of cells (`cells`),
           every public method transliterated (`Model.lean`);
+  concrete layer  `OMD3 K V` = the dict + the pointer-level linked list `PL` (heap of cells
+          `[PREV, NEXT, KEY, VALUE]` with object identities, `root` = 0, `Ptr.lean`) + the per-key
+          cell index `_map`, the helpers `_insert` / `_remove` / `_remove_all` / `_clear_ll` with
+          their pointer assignments, and every public mutator written in terms of them
+          (`Concrete.lean`).  `PL.abs` reads the heap back as a list of identified cells (`LL.lean`),
+          `OMD3.abs` forgets the heap and `_map`;
   spec    a plain `List (K × V)` with one-line operations (`Spec.lean`);
   `Inv`   the dict holds for every key exactly the values of its cells, in cell order, no empty
           lists, unique keys;
@@ -62,6 +69,8 @@ structure ReadsAgree (s : OMD K V) : Prop where
   getlist  : ∀ k, s.getlist k = Spec.valsOf k s.cells
   contains : ∀ k, s.contains k = Spec.has k s.cells
   len      : s.len = Spec.len s.cells
+  bool     : s.bool = !s.cells.isEmpty
+  iter     : s.iter = Spec.keys s.cells
   reversed : s.reversed = .ok (Spec.reversed s.cells)
   todict   : s.todict = .ok (Spec.items s.cells)
   todictM  : s.todictM = Spec.todictM s.cells
@@ -72,6 +81,7 @@ theorem reads_agree (s : OMD K V) (h : Inv s) : ReadsAgree s :=
     items := items_spec h, values := values_spec h
     getitem := getitem_spec h, get := get_spec h, getlist := getlist_spec h
     contains := contains_spec h, len := len_spec h, reversed := reversed_spec h
+    bool := by rw [OMD.bool, vals_isEmpty_iff h], iter := rfl
     todict := todict_spec h, todictM := todictM_spec h, counts := counts_spec h }
 
 /-- after every prefix of every history all reads of both registers agree with the plain list -/
@@ -199,6 +209,130 @@ theorem failed_op_changes_nothing (st : HState K V) (hi : HInv st) (op : HOp K V
   rw [h1]
   exact spec_err_unchanged (absH st) op e (by rw [← h2]; exact h)
 
+
+/-! ## the pointer level: the heap of cells, `root`, `NEXT` / `PREV` -/
+
+/-- in a well-formed heap the walk along `NEXT` from `root` (what `iteritems` / `iterkeys` follow)
+    and the walk along `PREV` (what `__reversed__` follows) meet the same cells, in opposite
+    orders, and `root[PREV][KEY]` (what `poplast()` / `popitem()` read) is the key of the last pair -/
+theorem heap_walks_agree (l : PL K V) (h : PInv l) :
+    l.idsBack = l.ids.reverse ∧ l.abs.cells.map (·.id) = l.ids ∧ l.lastKey = l.flat.getLast?.map (·.1) :=
+  ⟨h.shape.idsBack_eq, ids_of_cells h, plastKey_eq h⟩
+
+/-- `_insert`: `last = root[PREV]; cell = [last, root, k, v]; last[NEXT] = root[PREV] = cell`
+    keeps the heap well formed and appends exactly one cell (a new object) to what the walk reads -/
+theorem heap_insert (l : PL K V) (h : PInv l) (k : K) (v : V) :
+    PInv (l.insert k v) ∧ (l.insert k v).abs = l.abs.insert k v := pinsert_spec h k v
+
+/-- `_remove` / `_remove_all`: the unlinking assignment
+    `cell[PREV][NEXT], cell[NEXT][PREV] = cell[NEXT], cell[PREV]` takes exactly the cells named by
+    `_map[k]` (the last one / all of them) out of what the walk reads; same exceptions -/
+theorem heap_remove (l : PL K V) (h : PInv l) (k : K) :
+    (∀ l', l.remove k = .ok l' → l.abs.remove k = .ok l'.abs ∧ PInv l') ∧
+    (∀ e, l.remove k = .error e → l.abs.remove k = .error e) ∧
+    (∀ l', l.removeAll k = .ok l' → l.abs.removeAll k = .ok l'.abs ∧ PInv l') ∧
+    (∀ e, l.removeAll k = .error e → l.abs.removeAll k = .error e) := by
+  obtain ⟨a1, a2⟩ := premove_abs h k
+  obtain ⟨b1, b2⟩ := premoveAll_abs h k
+  have r1 := premove_spec h k
+  have r2 := premoveAll_spec h k
+  refine ⟨fun l' hl => ⟨(a1 l' hl).1, ?_⟩, a2, fun l' hl => ⟨(b1 l' hl).1, ?_⟩, b2⟩
+  · split at r1
+    · obtain ⟨l'', e, i, _⟩ := r1; rw [hl] at e; cases e; exact i
+    · rw [hl] at r1; cases r1
+  · split at r2
+    · obtain ⟨l'', e, i, _⟩ := r2; rw [hl] at e; cases e; exact i
+    · rw [hl] at r2; cases r2
+
+/-- `_clear_ll`: `root[:] = [root, root, None]`, `_map.clear()` -/
+theorem heap_clear (l : PL K V) (h : PInv l) : PInv l.clear ∧ l.clear.abs = l.abs.clear := pclear_spec h
+
+/-! ## the list of identified cells and the cell index `_map` -/
+
+/-- `_insert(k, v)` appends one cell to the walk and keeps the index exact -/
+theorem insert_appends_cell (l : LL K V) (h : LLInv l) (k : K) (v : V) :
+    LLInv (l.insert k v) ∧ (l.insert k v).flat = l.flat ++ [(k, v)] :=
+  ⟨llinv_insert h k v, flat_insert l k v⟩
+
+/-- `_remove(k)`: KeyError exactly when the key has no cell (never an IndexError from an emptied
+    `_map` entry); otherwise exactly the LAST cell of the key leaves the walk, index still exact -/
+theorem remove_unlinks_last_cell_of_key (l : LL K V) (h : LLInv l) (k : K) :
+    if l.flat.any (isK k) = true then
+      ∃ l', l.remove k = .ok l' ∧ LLInv l' ∧ l'.flat = rmLast k l.flat
+    else l.remove k = .error .keyError := remove_spec h k
+
+/-- `_remove_all(k)`: KeyError exactly when the key has no cell; otherwise every cell of the key
+    leaves the walk and the key leaves the index -/
+theorem removeAll_unlinks_every_cell_of_key (l : LL K V) (h : LLInv l) (k : K) :
+    if l.flat.any (isK k) = true then
+      ∃ l', l.removeAll k = .ok l' ∧ LLInv l' ∧ l'.flat = l.flat.filter (notK k)
+    else l.removeAll k = .error .keyError := removeAll_spec h k
+
+/-- `__reversed__`, which walks the `PREV` pointers, reads what the model's `reversed` reads from the
+    reversed pair list (and so, by `reads_agree`, yields `keys()` reversed) -/
+theorem reversed_walks_prev (s : OMD3 K V) (h : Inv3 s) :
+    s.reversed = s.abs.reversed ∧ s.reversed = .ok (Spec.reversed s.abs.cells) :=
+  ⟨reversed3_spec h, by rw [reversed3_spec h]; exact reversed_spec h.inv⟩
+
+/-- one step of any public operation on the concrete layer is the step of the two-structure model
+    on its abstraction: same pairs, same dict, same return value or exception; the three
+    structures stay consistent -/
+theorem concrete_step (st : HState3 K V) (hi : HInv3 st) (op : HOp K V) :
+    HInv3 (hstep3 st op).1 ∧ (hstep3 st op).1.abs = (hstep st.abs op).1 ∧
+      (hstep3 st op).2 = (hstep st.abs op).2 := hstep3_spec st hi op
+
+/-- for every history, after every prefix: the concrete layer (dict + identified cells + `_map`)
+    shows the pairs and returns the values of the plain list of pairs -/
+theorem concrete_refines_history (ops : List (HOp K V)) :
+    (hrun3 (HState3.init : HState3 K V) ops).map (fun r => (absH r.1.abs, r.2)) = Spec.hrun ⟨[], []⟩ ops := by
+  have h3 := (hrun3_spec (HState3.init : HState3 K V) hinv3_init ops).1
+  have h2 := refines_history (K := K) (V := V) ops
+  have : (HState3.init : HState3 K V).abs = HState.init := rfl
+  rw [this] at h3
+  rw [← h2, ← h3, List.map_map]
+  rfl
+
+/-- … and in every state a history reaches, the heap is a well-formed circular doubly linked list
+    through `root`, `_map[k]` is exactly the list of the cells of key `k` (in link order, by
+    identity; no entry without cells), cell identities are distinct, and the dict holds the values
+    of those cells -/
+theorem index_exact_history (ops : List (HOp K V)) (r : HState3 K V × Out K V)
+    (hr : r ∈ hrun3 (HState3.init : HState3 K V) ops) : HInv3 r.1 :=
+  (hrun3_spec HState3.init hinv3_init ops).2 r hr
+
+/-- in a consistent state the guarded helper calls of the public methods never raise on their own:
+    `_remove_all(k)` succeeds for every key of the dict, and `_remove(k)` raises KeyError exactly
+    for the keys that are not in the dict (this is `poplast`'s "missing key" path) -/
+theorem helpers_raise_only_for_missing_keys (s : OMD3 K V) (h : Inv3 s) (k : K) :
+    (dhas k s.vals = true → (∃ l, s.ll.removeAll k = .ok l) ∧ (∃ l, s.ll.remove k = .ok l)) ∧
+    (dhas k s.vals = false → s.ll.remove k = .error .keyError ∧ s.ll.removeAll k = .error .keyError) := by
+  have h1 := premoveAll_spec h.ll k
+  have h2 := premove_spec h.ll k
+  rw [← h.dhas_eq] at h1 h2
+  constructor
+  · intro hd
+    simp only [hd, ↓reduceIte] at h1 h2
+    obtain ⟨l1, e1, _⟩ := h1
+    obtain ⟨l2, e2, _⟩ := h2
+    exact ⟨⟨l1, e1⟩, ⟨l2, e2⟩⟩
+  · intro hd
+    simp only [hd, Bool.false_eq_true, ↓reduceIte] at h1 h2
+    exact ⟨h2, h1⟩
+
+/-! ## arguments that raise half way -/
+
+/-- an argument iterable that raises after yielding `l`: `update` has then taken over exactly `l`
+    (as if `update(l)` had been called), `update_extend` has appended exactly `l`, `addlist`
+    (which materialises its argument first) has changed nothing; the iterable's exception
+    propagates, and by `inv_step` / `refines_step` the dictionary is consistent afterwards -/
+theorem aborted_argument (st : HState K V) (k : K) (vs : List V) (l : List (K × V)) :
+    hstep st (.addlistAbort k vs) = (st, .abort) ∧
+    hstep st (.updateAbort l) = ((hstep st (.update (.pairs l) [])).1, .abort) ∧
+    hstep st (.updateExtendAbort l) = ((hstep st (.updateExtend (.pairs l) [])).1, .abort) := by
+  refine ⟨rfl, ?_, ?_⟩
+  · simp [hstep, OMD.update, OMD.setAll, HArg.resolve]
+  · simp [hstep, OMD.updateExtend, OMD.addAll, HState.withS, HArg.resolve]
+
 /-! ## copies -/
 
 /-- `copy()`, `copy.copy`, `copy.deepcopy` and a pickle round trip (all: rebuild from
@@ -221,6 +355,24 @@ theorem eq_omd_iff [DecidableEq V] (s t : OMD K V) (hs : Inv s) (ht : Inv t) :
 theorem eq_mapping_iff [DecidableEq V] (s : OMD K V) (h : Inv s) (m : List (K × V)) (hm : (dkeys m).Nodup) :
     (∃ b, s.eqMapping m = .ok b ∧ (b = true ↔ ∀ k, dget k m = Spec.last k s.cells)) :=
   ⟨_, eqMapping_spec h m, spec_eqMapping_iff s.cells m hm⟩
+
+/-- `omd != other` is the negation of `omd == other`, for OMDs and for mappings -/
+theorem ne_iff [DecidableEq V] (s t : OMD K V) (hs : Inv s) (ht : Inv t) (m : List (K × V)) :
+    (s.neOMD t = true ↔ s.cells ≠ t.cells) ∧
+    (∃ b, s.eqMapping m = .ok b ∧ s.neMapping m = .ok (!b)) := by
+  refine ⟨?_, ?_⟩
+  · have := eq_omd_iff s t hs ht
+    rw [OMD.neOMD, Ne, ← this]; cases s.eqOMD t <;> simp
+  · exact ⟨_, eqMapping_spec hs m, by simp [OMD.neMapping, eqMapping_spec hs m]⟩
+
+/-- a dictionary equals its own `todict()` -/
+theorem eq_todict_self [DecidableEq V] (s : OMD K V) (h : Inv s) :
+    ∃ l, s.todict = .ok l ∧ s.eqMapping l = .ok true := by
+  refine ⟨Spec.items s.cells, todict_spec h, ?_⟩
+  rw [eqMapping_spec h]
+  congr 1
+  rw [spec_eqMapping_iff s.cells _ (by rw [dkeys, items_fst]; exact nodup_dedup _)]
+  exact fun k => dget_items s.cells k
 
 /-! ## derived dictionaries -/
 
@@ -248,6 +400,29 @@ theorem sorted_of_sorted (s : OMD K V) (le : K × V → K × V → Bool) (rev : 
     (h : s.cells.Pairwise (fun a b => flipIf rev le a b = true)) : (s.sorted le rev).cells = s.cells := by
   rw [OMD.sorted, (fromPairs_spec _).2]
   exact sortBy_of_sorted _ _ h
+
+/-- `sorted` is stable (like the built-in, also with `reverse=True`): pairs with equal sort keys
+    keep their relative order -/
+theorem sorted_stable (s : OMD K V) (le : K × V → K × V → Bool) (rev : Bool)
+    (htr : ∀ a b c, le a b = true → le b c = true → le a c = true) (a : K × V) :
+    (s.sorted le rev).cells.filter (eqv le a) = s.cells.filter (eqv le a) := by
+  rw [OMD.sorted, (fromPairs_spec _).2]
+  have := sortBy_filter_eqv (flipIf rev le) (flipIf_trans rev le htr) a s.cells
+  simpa only [show eqv (flipIf rev le) a = eqv le a from funext (eqv_flipIf rev le a)] using this
+
+/-- … so `sorted` is THE stable sort: any list of pairs that is in the requested order and keeps
+    every class of equal sort keys as it was in the dictionary is the result of `sorted` -/
+theorem sorted_unique (s : OMD K V) (le : K × V → K × V → Bool) (rev : Bool)
+    (htot : ∀ a b, le a b = true ∨ le b a = true)
+    (htr : ∀ a b c, le a b = true → le b c = true → le a c = true)
+    (R : List (K × V)) (hR : R.Pairwise (fun a b => flipIf rev le a b = true))
+    (hst : ∀ a, R.filter (eqv le a) = s.cells.filter (eqv le a)) : R = (s.sorted le rev).cells := by
+  have hrefl : ∀ a, flipIf rev le a a = true := fun a => by
+    rcases flipIf_total rev le htot a a with h | h <;> exact h
+  apply sorted_ext (flipIf rev le) (flipIf_trans rev le htr) hrefl R _ hR (sorted_sorted s le rev htot htr)
+  intro a
+  have e : eqv (flipIf rev le) a = eqv le a := funext (eqv_flipIf rev le a)
+  rw [e, hst a, sorted_stable s le rev htr a]
 
 /-- `sortedvalues(key, reverse)` does not raise, gives a consistent dictionary with the same key
     sequence, and every key's values are its old values sorted (a permutation, in the order of
@@ -307,6 +482,59 @@ example : ([(0, 3), (1, 2), (1, 0)] : List (Nat × Nat)).Pairwise
     (fun a b => flipIf true (fun a b : Nat × Nat => decide (a.2 ≤ b.2)) a b = true) := by decide
 /-- a failing operation (`failed_op_changes_nothing`): `del` of an absent key -/
 example : (hstep (⟨OMD.fromPairs [(0, 1)], OMD.empty⟩ : HState Nat Nat) (.delitem 5)).2 = .err .keyError := by decide
+
+
+/-- the concrete layer on a short history: the `NEXT` and `PREV` fields of the heap (`root` = 0; cells 2 and
+    3 are garbage after the second and third step), the two walks, the index `_map`, the pairs -/
+def demoOps3 : List (HOp Nat Nat) :=
+  [.new (some (.pairs [(0, 0), (1, 1), (0, 2)])) [], .poplast (some 0) false, .setitem 1 7, .add 0 4, .delitem 1]
+
+example : (hrun3 HState3.init demoOps3).map
+    (fun r => (r.1.s.ll.nxt, r.1.s.ll.prv, r.1.s.ll.ids, r.1.s.ll.idsBack, r.1.s.ll.map, r.1.s.ll.flat)) =
+    [([(1, 2), (0, 1), (2, 3), (3, 0)], [(1, 0), (0, 3), (2, 1), (3, 2)], [1, 2, 3], [3, 2, 1],
+      [(0, [1, 3]), (1, [2])], [(0, 0), (1, 1), (0, 2)]),
+     ([(1, 2), (0, 1), (2, 0), (3, 0)], [(1, 0), (0, 2), (2, 1), (3, 2)], [1, 2], [2, 1],
+      [(0, [1]), (1, [2])], [(0, 0), (1, 1)]),
+     ([(1, 4), (0, 1), (2, 0), (3, 0), (4, 0)], [(1, 0), (0, 4), (2, 1), (3, 2), (4, 1)], [1, 4], [4, 1],
+      [(0, [1]), (1, [4])], [(0, 0), (1, 7)]),
+     ([(1, 4), (0, 1), (2, 0), (3, 0), (4, 5), (5, 0)], [(1, 0), (0, 5), (2, 1), (3, 2), (4, 1), (5, 4)], [1, 4, 5], [5, 4, 1],
+      [(0, [1, 5]), (1, [4])], [(0, 0), (1, 7), (0, 4)]),
+     ([(1, 5), (0, 1), (2, 0), (3, 0), (4, 5), (5, 0)], [(1, 0), (0, 5), (2, 1), (3, 2), (4, 1), (5, 1)], [1, 5], [5, 1],
+      [(0, [1, 5])], [(0, 0), (0, 4)])] := by
+  rfl
+/-- `HInv3` / `Inv3` / `PInv` / `LLInv` are met by every state of that history (and of `demoOps`) -/
+example : ∀ r ∈ hrun3 HState3.init demoOps3, HInv3 r.1 := index_exact_history demoOps3
+example : ∀ r ∈ hrun3 HState3.init demoOps, HInv3 r.1 := index_exact_history demoOps
+/-- … in particular the hypotheses `PInv l` (`heap_*`), `LLInv l` (`insert_appends_cell`, `remove_…`) and `Inv3 s`
+    (`helpers_raise_only_for_missing_keys`, `reversed_walks_prev`) hold for the heaps of that history -/
+example : ∀ r ∈ hrun3 HState3.init demoOps3, Inv3 r.1.s ∧ PInv r.1.s.ll ∧ LLInv r.1.s.ll.abs :=
+  fun r hr => ⟨(index_exact_history demoOps3 r hr).s, (index_exact_history demoOps3 r hr).s.ll,
+    (index_exact_history demoOps3 r hr).s.ll.ll⟩
+/-- an index that has drifted from the cells (what seeded defect C01-1, `_remove_all` keeping the emptied
+    entry, produces): `_remove` then raises IndexError where KeyError / the default is due -/
+example : (⟨[], [(0, [])], 1⟩ : LL Nat Nat).remove 0 = .error .indexError := rfl
+example : ((⟨[], ⟨[], [], [], [(0, [])], 1⟩⟩ : OMD3 Nat Nat).poplastKey 0 true).2 = .err .indexError := rfl
+/-- arguments that raise half way -/
+example : ((hrun HState.init [.add 0 1, .add 1 2, .updateAbort [(0, 5), (2, 6)], .addlistAbort 1 [7]]).map
+    (fun r => (r.1.s.cells, r.2))) =
+    [([(0, 1)], .unit), ([(0, 1), (1, 2)], .unit), ([(1, 2), (0, 5), (2, 6)], .abort), ([(1, 2), (0, 5), (2, 6)], .abort)] := by
+  decide
+/-- stability: two pairs with equal sort keys (the value) keep their order, also in reverse -/
+example : ((OMD.fromPairs [(1, 2), (0, 2), (2, 3)] : OMD Nat Nat).sorted (fun a b => decide (a.2 ≤ b.2)) true).cells =
+    [(2, 3), (1, 2), (0, 2)] := by decide
+/-- the hypotheses of `sorted_unique` are met by that list: in descending order, classes of equal values as before -/
+example : ([(2, 3), (1, 2), (0, 2)] : List (Nat × Nat)).Pairwise
+      (fun a b => flipIf true (fun a b : Nat × Nat => decide (a.2 ≤ b.2)) a b = true) ∧
+    ∀ a, ([(2, 3), (1, 2), (0, 2)] : List (Nat × Nat)).filter (eqv (fun a b : Nat × Nat => decide (a.2 ≤ b.2)) a) =
+      (OMD.fromPairs [(1, 2), (0, 2), (2, 3)] : OMD Nat Nat).cells.filter (eqv (fun a b : Nat × Nat => decide (a.2 ≤ b.2)) a) := by
+  refine ⟨by decide, fun a => ?_⟩
+  have h := sorted_stable (OMD.fromPairs [(1, 2), (0, 2), (2, 3)] : OMD Nat Nat) (fun a b => decide (a.2 ≤ b.2)) true
+    (by intro a b c; simp only [decide_eq_true_eq]; omega) a
+  have e : ((OMD.fromPairs [(1, 2), (0, 2), (2, 3)] : OMD Nat Nat).sorted (fun a b => decide (a.2 ≤ b.2)) true).cells =
+      [(2, 3), (1, 2), (0, 2)] := by decide
+  rw [e] at h
+  exact h
+example : (OMD.fromPairs [(0, 1), (1, 2), (0, 3)] : OMD Nat Nat).todict = .ok [(0, 3), (1, 2)] := rfl
 
 example : Spec.keys [(2, 3), (3, 0), (3, 1), (1, 7), (1, 1), (2, 3)] = [2, 3, 1] := by decide
 example : Spec.items [(2, 3), (3, 0), (3, 1), (1, 7), (1, 1), (2, 4)] = [(2, 4), (3, 1), (1, 1)] := by decide
